@@ -135,6 +135,26 @@ def head_of(cls):
     return "custom:" + own_name.__name__
 
 
+def token_has_class(cls):
+    """Does the `_name` implementation this class inherits put the class itself into the tokenized data?  (AST of the owning
+    `_name`: a call of _tokenize_deterministic one of whose arguments mentions type(self).)"""
+    for k in cls.__mro__:
+        if "_name" in k.__dict__:
+            fn = k.__dict__["_name"]
+            fn = getattr(fn, "func", None) or getattr(fn, "fget", None) or fn
+            try:
+                tree = ast.parse(textwrap.dedent(inspect.getsource(fn)))
+            except (OSError, TypeError):
+                return False
+            for node in ast.walk(tree):
+                if isinstance(node, ast.Call) and getattr(node.func, "id", getattr(node.func, "attr", "")) == "_tokenize_deterministic":
+                    for a in node.args:
+                        if "type(self)" in ast.unparse(a):
+                            return True
+            return False
+    return False
+
+
 def coq_str(s):
     return '"' + s.replace('"', "'") + '"'
 
@@ -155,7 +175,7 @@ def main():
              "From Coq Require Import String List Bool.", "Import ListNotations.", "Open Scope string_scope.", "",
              "Record class_info := { c_name : string; c_module : string; c_head : string; c_arity : nat; c_variadic : bool;",
              "  c_filter_passthrough : bool; c_projection_passthrough : bool; c_length_preserving : bool; c_elemwise : bool; c_blockwise : bool;",
-             "  c_defines : list string; c_global_reads : list (string * string) }.", "",
+             "  c_defines : list string; c_global_reads : list (string * string); c_token_class : bool }.", "",
              "Definition mutable_globals : list (string * string) := ["]
     lines.append(";\n".join("  (%s, %s)" % (coq_str(k), coq_str(v)) for k, v in sorted(globs.items())))
     lines.append("].\n")
@@ -175,12 +195,13 @@ def main():
         for m in ("_divisions", "_meta", "_layer", "_task", "_lower", "npartitions", "_filtered_task", "_divisions_and_locations", "_plan"):
             for g in global_reads(c, m, globs):
                 reads.append((m, g))
-        rows.append("  {| c_name := %s; c_module := %s; c_head := %s; c_arity := %d; c_variadic := %s;\n     c_filter_passthrough := %s; c_projection_passthrough := %s; c_length_preserving := %s; c_elemwise := %s; c_blockwise := %s;\n     c_defines := [%s]; c_global_reads := [%s] |}" % (
+        rows.append("  {| c_name := %s; c_module := %s; c_head := %s; c_arity := %d; c_variadic := %s;\n     c_filter_passthrough := %s; c_projection_passthrough := %s; c_length_preserving := %s; c_elemwise := %s; c_blockwise := %s;\n     c_defines := [%s]; c_global_reads := [%s]; c_token_class := %s |}" % (
             coq_str(c.__name__), coq_str(c.__module__), coq_str(head_of(c)), len(params), "true" if variadic else "false",
             "true" if fp else "false", "true" if getattr(c, "_projection_passthrough", False) else "false",
             "true" if getattr(c, "_is_length_preserving", False) else "false",
             "true" if issubclass(c, Elemwise) else "false", "true" if issubclass(c, Blockwise) else "false",
-            "; ".join(coq_str(d) for d in defines), "; ".join("(%s, %s)" % (coq_str(a), coq_str(b)) for a, b in reads)))
+            "; ".join(coq_str(d) for d in defines), "; ".join("(%s, %s)" % (coq_str(a), coq_str(b)) for a, b in reads),
+            "true" if token_has_class(c) else "false"))
     raws = raw_divisions_calls()
     lines.append("Definition raw_divisions_calls : list (string * (string * string)) := [")
     lines.append(";\n".join("  (%s, (%s, %s))" % (coq_str(a), coq_str(b), coq_str(c)) for a, b, c in raws))
